@@ -37,7 +37,6 @@ func VerifLemma_C18C_ModifyImage() {
 		Name: vStrPtr("google/protobuf/any.proto"), Package: vStrPtr("google.protobuf"), Options: wktOpts,
 		SourceCodeInfo: &descriptorpb.SourceCodeInfo{Location: []*descriptorpb.SourceCodeInfo_Location{vLoc(8), vLoc(8, 1)}},
 	}}
-	wktLocs := wkt.fdp.SourceCodeInfo.Location
 	// a well-known type may be an import or vendored into the module (a non-import file): skipped either way
 	wkt.isImport = verifNondetBool()
 
@@ -109,54 +108,81 @@ func VerifLemma_C18C_ModifyImage() {
 	image := &vImage{files: []bufimage.ImageFile{wkt, f}}
 
 	snap := vTakeSnap(f.fdp)
-	oldJ, oldG, oldC := opts.JavaPackage, opts.GoPackage, opts.CcEnableArenas
+	wktSnap := vTakeSnap(wkt.fdp)
 	err := Modify(image, config)
 	verifCover("modified")
 	verifAssert(err == nil, "Modify succeeds on a well-formed image and validated config")
 
-	// the well-known-type file is never touched
-	verifAssert(wkt.fdp.Options == wktOpts && *wktOpts.JavaPackage == "com.google.protobuf" && wktOpts.GoPackage == nil &&
-		len(wkt.fdp.SourceCodeInfo.Location) == 2 && wkt.fdp.SourceCodeInfo.Location[0] == wktLocs[0], "well-known-type file untouched")
-	// non-option fields of the ordinary file
-	verifAssert(vFrameOK(snap, f.fdp) && f.fdp.Options == opts, "non-option fields unchanged")
-	verifAssert(fld1.Options == nil && fld0.Name != nil && msg.Field[0] == fld0 && msg.Field[1] == fld1, "fields not eligible for jstype are untouched")
+	// the well-known-type file is never touched (values: descriptor, every option, source locations)
+	verifAssert(vFrameOK(wktSnap, wkt.fdp) && vOptionsPresenceKept(wktSnap, wkt.fdp) && vOtherOptionsOK(wktSnap, wkt.fdp, bufconfig.FileOptionUnspecified) &&
+		vLocPathsEq(wkt.fdp.SourceCodeInfo, wktSnap.locPaths), "well-known-type file untouched")
+	// non-option parts of the ordinary file (names, package, messages, fields and their non-jstype options)
+	verifAssert(vFrameOK(snap, f.fdp) && f.fdp.Options != nil, "non-option fields unchanged")
+	verifAssert(fld1.Options.GetJstype() == descriptorpb.FieldOptions_JS_NORMAL && (fld1.Options == nil || fld1.Options.Jstype == nil), "fields not eligible for jstype are untouched")
 	sci := f.fdp.SourceCodeInfo
+	cur := f.fdp.Options
+	changed := func(opt bufconfig.FileOption) bool { return !vGovernedKept(snap, f.fdp, opt) }
 	if !enabled {
 		verifCover("managed mode off")
-		verifAssert(opts.JavaPackage == oldJ && opts.GoPackage == oldG && opts.CcEnableArenas == oldC && opts.JavaMultipleFiles == nil &&
-			opts.CsharpNamespace == nil && fld0.Options == nil, "managed mode off: no option is written")
-		verifAssert(len(sci.Location) == nLocs, "managed mode off: source info untouched")
+		verifAssert(vOtherOptionsOK(snap, f.fdp, bufconfig.FileOptionUnspecified) && (fld0.Options == nil || fld0.Options.Jstype == nil), "managed mode off: no option is written")
+		verifAssert(vLocPathsEq(sci, snap.locPaths), "managed mode off: source info untouched")
 		return
 	}
 	verifCover("managed mode on")
-	// location of an option is removed iff the option was rewritten
-	changedJ, changedG := opts.JavaPackage != oldJ, opts.GoPackage != oldG
-	changedC := opts.CcEnableArenas != oldC
-	verifAssert((vCountLoc(sci, lJ) == 0) == changedJ && (vCountLoc(sci, lParentJ) == 0) == changedJ, "java_package location (+parent) removed iff rewritten")
-	verifAssert((vCountLoc(sci, lG) == 0) == changedG && (vCountLoc(sci, lParentG) == 0) == changedG, "go_package location (+parent) removed iff rewritten")
-	verifAssert((vCountLoc(sci, lC) == 0) == changedC && (vCountLoc(sci, lParentC) == 0) == changedC, "cc_enable_arenas location (+parent) removed iff rewritten")
+	// the location of an option (+ one [8] parent) is removed iff the option's value was rewritten
+	changedJ, changedG, changedC := changed(bufconfig.FileOptionJavaPackage), changed(bufconfig.FileOptionGoPackage), changed(bufconfig.FileOptionCcEnableArenas)
+	verifAssert((vCountPath(sci, 8, 1) == 0) == changedJ && vCountPath(sci, 8, 1) <= 1, "java_package location removed iff rewritten")
+	verifAssert((vCountPath(sci, 8, 11) == 0) == changedG && vCountPath(sci, 8, 11) <= 1, "go_package location removed iff rewritten")
+	verifAssert((vCountPath(sci, 8, 31) == 0) == changedC && vCountPath(sci, 8, 31) <= 1, "cc_enable_arenas location removed iff rewritten")
+	removed := 0
+	for _, c := range []bool{changedJ, changedG, changedC} {
+		if c {
+			removed++
+		}
+	}
+	verifAssert(vCountPath(sci, 8) == 3-removed, "one [8] parent location is removed per rewritten file option")
 	if changedJ {
 		verifCover("java_package rewritten")
 	}
 	if changedG {
 		verifCover("go_package rewritten")
-		verifAssert(*opts.GoPackage == "g/a;pkv1", "go_package = prefix/dir;packageversion")
+		verifAssert(cur.GetGoPackage() == "g/a;pkv1", "go_package = prefix/dir;packageversion")
 	}
 	// other locations survive, in order
-	verifAssert(vCountLoc(sci, lPkg) == 1 && vCountLoc(sci, lMsg) == 1 && vCountLoc(sci, lFld) == 1 && vCountLoc(sci, lFldName) == 1, "locations of ungoverned elements survive")
-	removed := 0
-	for _, c := range []bool{changedJ, changedG, changedC} {
-		if c {
-			removed += 2
-		}
-	}
-	verifAssert(len(sci.Location) == nLocs-removed, "nothing else is removed")
-	verifAssert(sci.Location[0] == lPkg && sci.Location[len(sci.Location)-1] == lFldName, "order preserved")
+	verifAssert(vCountPath(sci, 2) == 1 && vCountPath(sci, 4, 0) == 1 && vCountPath(sci, 4, 0, 2, 0) == 1 && vCountPath(sci, 4, 0, 2, 0, 1) == 1, "locations of ungoverned elements survive")
+	verifAssert(len(sci.Location) == nLocs-2*removed, "nothing else is removed")
+	verifAssert(vPathIs(sci.Location[0].Path, []int32{2}) && vPathIs(sci.Location[len(sci.Location)-1].Path, []int32{4, 0, 2, 0, 1}), "order preserved")
 	// jstype
 	if fld0.Options != nil && fld0.Options.Jstype != nil {
 		verifCover("jstype set")
 		verifAssert(jsOverride && *fld0.Options.Jstype == descriptorpb.FieldOptions_JS_STRING, "jstype only from a jstype override")
 	}
+}
+
+func vCountPath(sci *descriptorpb.SourceCodeInfo, path ...int32) int {
+	n := 0
+	for _, l := range sci.Location {
+		if vPathIs(l.Path, path) {
+			n++
+		}
+	}
+	return n
+}
+
+// vLocPathsEq: the source info has exactly the given location paths, in order (nil info <=> no paths recorded).
+func vLocPathsEq(sci *descriptorpb.SourceCodeInfo, paths [][]int32) bool {
+	if sci == nil {
+		return len(paths) == 0
+	}
+	if len(sci.Location) != len(paths) {
+		return false
+	}
+	for i := range paths {
+		if !vPathIs(sci.Location[i].Path, paths[i]) {
+			return false
+		}
+	}
+	return true
 }
 
 func vI32Ptr(v int32) *int32 { return &v }
@@ -219,22 +245,12 @@ func VerifLemma_C18C_WKTUntouched() {
 	verifCover("modified")
 	verifAssert(err == nil, "Modify succeeds")
 	// the ordinary file IS rewritten (the config is effective) ...
-	verifAssert(ordOpts.GoPackage != nil && *ordOpts.GoPackage == "g/a;pkv1" && ordOpts.JavaPackage != nil && ordOpts.OptimizeFor != nil &&
+	oo := ord.fdp.Options
+	verifAssert(oo.GetGoPackage() == "g/a;pkv1" && oo.JavaPackage != nil && oo.OptimizeFor != nil &&
 		len(ord.fdp.SourceCodeInfo.Location) == 0, "the ordinary file is rewritten and swept")
-	// ... the well-known-type file is not
-	verifAssert(wkt.fdp.Options == wktOpts && vFrameOK(snap, wkt.fdp), "well-known-type file: descriptor fields and Options pointer untouched")
-	if wktOpts != nil {
-		verifAssert(*wktOpts.GoPackage == "google.golang.org/protobuf/types/known/anypb" && *wktOpts.JavaPackage == "com.google.protobuf" &&
-			wktOpts.OptimizeFor == nil && wktOpts.CcEnableArenas == nil && wktOpts.CsharpNamespace == nil && wktOpts.JavaMultipleFiles == nil &&
-			wktOpts.ObjcClassPrefix == nil && wktOpts.RubyPackage == nil && wktOpts.PhpNamespace == nil && wktOpts.JavaOuterClassname == nil,
-			"well-known-type file: no file option written")
-	}
-	verifAssert(fld.Options == nil, "well-known-type file: no jstype written")
-	if wktLocs != nil {
-		sci := wkt.fdp.SourceCodeInfo
-		verifAssert(len(sci.Location) == len(wktLocs), "well-known-type file: source info not swept")
-		for i := range wktLocs {
-			verifAssert(sci.Location[i] == wktLocs[i], "well-known-type file: locations untouched")
-		}
-	}
+	// ... the well-known-type file is not (value equality of every part)
+	verifAssert(vFrameOK(snap, wkt.fdp) && vOptionsPresenceKept(snap, wkt.fdp), "well-known-type file: descriptor fields untouched, no options message appears")
+	verifAssert(vOtherOptionsOK(snap, wkt.fdp, bufconfig.FileOptionUnspecified), "well-known-type file: no file option written or changed")
+	verifAssert(fld.Options == nil || fld.Options.Jstype == nil, "well-known-type file: no jstype written")
+	verifAssert(vLocPathsEq(wkt.fdp.SourceCodeInfo, snap.locPaths), "well-known-type file: source info not swept")
 }
